@@ -469,6 +469,8 @@ func c08(c *core.Check) {
 	r9 := c.Rule("R9", "a comment is white space to the value parsers: every switch and condition of the parsing code that steps over white space steps over comments too (the document pipeline keeps comments as tokens), so that `rgb(0, /**/ 0, 0)` or `!important /**/` mean what they mean without the comment", 6)
 	triviaRule(c, r9)
 
+	c08FlexZero(c)
+
 	// ---- R5 var() cycles
 	r5 := c.Rule("R5", "tree.resolveVar follows custom properties under a visited set: a membership test on the variable name excludes the lookup of its value, and the name is inserted before the looked-up tokens are resolved recursively and removed again when that resolution returns (the set holds the resolutions in progress, not every name seen)", 3)
 	rv := p.Fn("html/tree", "resolveVar")
@@ -491,3 +493,111 @@ func c08(c *core.Check) {
 // wrapped expanders shared by several shorthands: their longhand names are computed from the shorthand
 // (PropsFromNames[shortand.String()+suffix]); the constants they also mention belong to one of the users only.
 var sharedExpander = map[string]bool{}
+
+// c08FlexZero: the `flex` shorthand's rule for a unitless zero (CSS Flexbox §7.1.1).
+func c08FlexZero(c *core.Check) {
+	p := c.Prog
+	r := c.Rule("R10", "flex shorthand: a component is tried as the flex-basis exactly when no basis was found yet and it is not a unitless zero that must be a flex factor — a number equal to 0 not already preceded by two flex factors (CSS Flexbox §7.1.1); decided for the 32 assignments of (is a number, is zero, grow found, shrink found, basis found) by replaying the branches of _expandFlex", 32)
+	fn := p.Fn("css/validation", "_expandFlex")
+	if fn == nil {
+		r.Anchor("css/validation._expandFlex")
+		return
+	}
+	// the If that guards the call of flexBasis
+	var guard *ssa.If
+	var target *ssa.BasicBlock
+	core.Instrs(fn, func(in ssa.Instruction) {
+		call, ok := in.(*ssa.Call)
+		if !ok || call.Call.StaticCallee() == nil || call.Call.StaticCallee().Name() != "flexBasis" {
+			return
+		}
+		b := call.Block()
+		if len(b.Preds) == 1 {
+			if ifi, ok := b.Preds[0].Instrs[len(b.Preds[0].Instrs)-1].(*ssa.If); ok {
+				guard = ifi
+				target = b
+			}
+		}
+	})
+	if guard == nil {
+		r.Anchor("_expandFlex: the test guarding flexBasis(…)")
+		return
+	}
+	// the guard may be the second half of a && chain: evaluate the whole decision by asking whether the guard block is
+	// reached and its condition holds, replaying from the loop body's first test
+	for mask := 0; mask < 32; mask++ {
+		isNum, isZero, grow, shrink, basis := mask&1 != 0, mask&2 != 0, mask&4 != 0, mask&8 != 0, mask&16 != 0
+		key := fmt.Sprintf("css/validation._expandFlex | number=%v zero=%v growFound=%v shrinkFound=%v basisFound=%v", isNum, isZero, grow, shrink, basis)
+		undecided := ""
+		ev := &core.CondEval{Leaf: func(v ssa.Value) (bool, bool) {
+			switch x := v.(type) {
+			case *ssa.Phi:
+				switch x.Comment {
+				case "growFound":
+					return grow, true
+				case "shrinkFound":
+					return shrink, true
+				case "basisFound":
+					return basis, true
+				}
+			case *ssa.Extract:
+				if _, ok := x.Tuple.(*ssa.TypeAssert); ok && x.Index == 1 {
+					return isNum, true
+				}
+			case *ssa.BinOp:
+				if x.Op == token.EQL || x.Op == token.NEQ {
+					if k, ok := core.ConstInt(x.Y); ok && k == 0 {
+						if call, ok := x.X.(*ssa.Call); ok && call.Call.StaticCallee() != nil && call.Call.StaticCallee().Name() == "Int" {
+							return isZero == (x.Op == token.EQL), true
+						}
+					}
+				}
+			}
+			return false, false
+		}}
+		// reach the guard: replay from the guard block's chain of single-predecessor If blocks
+		reached, holds := true, false
+		chain := []*ssa.If{guard}
+		for b := guard.Block(); len(b.Preds) == 1; {
+			pb := b.Preds[0]
+			ifi, ok := pb.Instrs[len(pb.Instrs)-1].(*ssa.If)
+			if !ok {
+				break
+			}
+			// stop at the loop header / range machinery: conditions we cannot evaluate end the chain
+			if _, okc := ev.Bool(ifi.Cond); !okc {
+				break
+			}
+			chain = append([]*ssa.If{ifi}, chain...)
+			b = pb
+		}
+		for i, ifi := range chain {
+			cv, ok := ev.Bool(ifi.Cond)
+			if !ok {
+				undecided = "a condition on the way to flexBasis could not be replayed"
+				break
+			}
+			next := target
+			if i < len(chain)-1 {
+				next = chain[i+1].Block()
+			}
+			want := ifi.Block().Succs[0] == next
+			if i < len(chain)-1 {
+				if cv != want {
+					reached = false
+					break
+				}
+			} else {
+				holds = cv == want
+			}
+		}
+		if undecided != "" {
+			r.Unknown(key, p.Pos(guard.Pos()), undecided)
+			continue
+		}
+		got := reached && holds
+		forced := isNum && isZero && !(grow && shrink)
+		want := !basis && !forced
+		r.Cond(got == want, key, p.Pos(guard.Pos()), fmt.Sprintf("tried as basis: %v", want), fmt.Sprintf("tried as flex-basis: %v, CSS Flexbox gives %v", got, want))
+	}
+}
